@@ -510,7 +510,6 @@ func ruleRenderSize(w *World, r *Report, pfx string) {
 	_ = strings.TrimSpace
 }
 
-
 // ruleFlushReturnsErrors (W-ERRRET): the writer's Flush drops no error. For every call in it
 // that yields an error e, every path from that call to a return either has tested e == nil or
 // returns e itself (an untested or non-nil write error answered with nil would let a failed
